@@ -159,7 +159,7 @@ class C10(CompSpec):
     rule = (
         "histories of 2-5 handles on 1-3 virtual hosts (two handles may share a host), each a real process running a seeded program over Cluster's public API: deserialize with "
         "try_promote_to_submitter, update_job_status / complete_hpc_job_id as submitter, demote_from_submitter, and deliberately out-of-date copies attempting mark_canceled / "
-        "serialize_jobs / promote_to_submitter; scheduled at audit granularity; oracles: (1) interval history check - definite hold = [promotion returned, demote called), possible "
+        "serialize_jobs / promote_to_submitter / demote_from_submitter (a copy loaded while another handle of the same host held the role); scheduled at audit granularity; oracles: (1) interval history check - definite hold = [promotion returned, demote called), possible "
         "hold = [promotion called, demote returned]; two definite holds never overlap, a refusal needs a possible holder; (2) after every single step of every actor the on-disk "
         "versions moved by 0 or +1 (no write from a copy that was not current); (3) an out-of-date write ends in the matching version-mismatch error and the SHA-256 of the four "
         "state files is unchanged across each of its steps; plus a slice of full simulations with many user rounds where the submitter field seen at lock-free instants must only "
@@ -180,7 +180,7 @@ class C10(CompSpec):
             for k in range(nh):
                 prog = []
                 for _ in range(rng.randint(2, 6)):
-                    prog += rng.choice([["promote", "work", "demote"], ["promote", "demote"], ["load"], ["stale_write"], ["stale_write_jobs"], ["stale_promote"], ["promote", "work", "complete_id", "work", "demote"], ["load", "promote", "work", "demote", "stale_write"]])
+                    prog += rng.choice([["promote", "work", "demote"], ["promote", "demote"], ["load"], ["stale_write"], ["stale_write_jobs"], ["stale_promote"], ["stale_demote"], ["load", "stale_demote"], ["promote", "work", "complete_id", "work", "demote"], ["load", "promote", "work", "demote", "stale_write"]])
                 handles.append({"host": rng.choice(hosts), "prog": prog})
             scen = {
                 "kind": "c10",
